@@ -831,14 +831,17 @@ class World:
             if f is not v.func or any(conv(a) is not a for a in list(v.args) + list(v.keywords.values())):
                 return functools.partial(f, *[conv(a) for a in v.args], **{k: conv(a) for k, a in v.keywords.items()})
             return v
-        if not isinstance(v, types.FunctionType) or v.__module__ not in self.ns:
+        if not isinstance(v, types.FunctionType):
             return v
-        if v.__globals__ is not self.mods[v.__module__].__dict__:
+        # the module a function's globals belong to (functools.wraps copies __module__ from the wrapped function, so a
+        # decorator's wrapper claims the decorated function's module while its code lives in the decorator's)
+        home = v.__globals__.get("__name__")
+        if home not in self.ns or v.__globals__ is not self.mods[home].__dict__:
             return v
         key = id(v)
         if key not in self._clones:
             code = v.__code__
-            if v.__module__ in self.desugar:
+            if home in self.desugar:
                 code = desugared_code(v) or code
             dflt, kwd = v.__defaults__, v.__kwdefaults__
             if self.space is not None:
@@ -846,7 +849,21 @@ class World:
                 conv = lambda a: self.space.proxy(a) if self.space.is_expr_class(a) else a  # noqa: E731
                 dflt = tuple(conv(a) for a in dflt) if dflt else dflt
                 kwd = {k: conv(a) for k, a in kwd.items()} if kwd else kwd
-            f = types.FunctionType(code, self.ns[v.__module__], v.__name__, dflt, v.__closure__)
+            closure = v.__closure__
+            if closure:
+                # a decorator's wrapper closes over the function it wraps (check_if_handled_given_other(__sub__) ...): the wrapped
+                # function is handed over as its clone, otherwise the wrapper would run the un-shimmed original
+                cells = []
+                for cell in closure:
+                    try:
+                        content = cell.cell_contents
+                    except ValueError:
+                        cells.append(cell)
+                        continue
+                    c = self._clone(content) if isinstance(content, (types.FunctionType, functools.partial)) else content
+                    cells.append(types.CellType(c) if c is not content else cell)
+                closure = tuple(cells)
+            f = types.FunctionType(code, self.ns[home], v.__name__, dflt, closure)
             f.__kwdefaults__ = kwd
             f.__qualname__ = v.__qualname__
             f.__doc__ = v.__doc__
